@@ -585,6 +585,14 @@ def fieldBinScalar [Add K] [Sub K] [Mul K] [Inv K] [OfNat K 0] [OfNat K 1] [Deci
     if rev then .ok (binopScalar (fun x y => evalBin E o y x) (fun x y => binDt o y x) f c cdt)
     else .ok (binopScalar (evalBin E o) (binDt o) f c cdt)
 
+/-- Field.unite(other) = `self + other` -/
+def funite [Add K] [Sub K] [Mul K] [Inv K] [OfNat K 0] [OfNat K 1] [DecidableEq K] (E : ElemOps K)
+    (f g : Fld K) : Except String (Fld K) := fieldBin E .add false f g
+
+/-- Field.flexible_addsub(other, neg) = `self - other if neg else self + other` -/
+def fflex [Add K] [Sub K] [Mul K] [Inv K] [OfNat K 0] [OfNat K 1] [DecidableEq K] (E : ElemOps K)
+    (f g : Fld K) (neg : Bool) : Except String (Fld K) := if neg then fieldBin E .sub false f g else fieldBin E .add false f g
+
 /-- unary operators; `abs` is separate (square root for complex data) -/
 inductive UnOp where
   | neg | pos | conjugate | real | imag
